@@ -384,6 +384,8 @@ class DnsNameUncompressed(ParsableBase, Serializable):
 
             if not label:
                 break
+            if '.' in label:  # cannot be told apart from the label separator in the textual form of the name
+                raise InvalidValue(label, cls, 'labels')
 
             labels.append(label)
 
